@@ -1,7 +1,7 @@
 (* C15 - the function wrapper never serves a stale value and counts every evaluation once.
    This file only restates theorems proved in Proofs/SFProofs.v. *)
 From Coq Require Import String List ZArith Bool.
-From LBFGSB Require Generated.WrapperSrc.
+From LBFGSB Require Generated.WrapperSrc Generated.SFSrc Model.SFPy Proofs.SFRefine.
 From LBFGSB Require Import Base.Res Model.SF Model.SFInst Proofs.SFProofs.
 Import ListNotations.
 Open Scope Z_scope.
@@ -82,6 +82,57 @@ Theorem C15_wrapper_source :
   "self.g[np.broadcast_to(np.equal(lb, ub), self.g.shape)] = 0.0"]%string.
 Proof. repeat split; reflexivity. Qed.
 
+(* TRANSLATION TIE.  scalar_function.ScalarFunction itself - the closures fun_wrapped / update_fun / grad_wrapped / update_grad
+   (both variants) of __init__ and the methods update_x, _update_fun, _update_grad, fun, grad, fun_and_grad - is translated
+   statement by statement on every run into functions on the record of the object's attributes (Generated/SFSrc.v; attribute
+   record and helpers in Model/SFPy.v).  That translated class REFINES the memo cell the theorems above are about: through the
+   abstraction "a stored value counts only while its validity flag is set", every method gives the model's answer, the model's
+   trace of user calls, raises when the model raises, and reaches the abstraction of the model's next state, from every state in
+   which a set flag has its value (established by __init__, preserved by every method); hence so does every finite sequence of
+   requests, and C15_wrapper holds of the translated source. *)
+Section C15_source.
+  Variables (P F G S : Type) (peqb : P -> P -> bool) (fmul : F -> S -> F) (gmul : G -> S -> G).
+  Variables (uf : P -> res F) (ug : P -> res G) (stencil : P -> list P) (fdest : P -> F -> list F -> res G) (fdmode : bool).
+  Notation pst := (SFPy.pst P F G S).
+  Notation mapr := (SFRefine.mapr P F G).
+
+  Theorem C15_source_methods_refine : forall (x : P) (t : pst), SFPy.inv t ->
+    mapr (fun '(v, t') => (v, SFPy.abs t')) (SFSrc.m_fun P F G S peqb fmul uf x t) = SF.sf_fun P F G S peqb fmul uf x (SFPy.abs t) /\
+    mapr (fun '(g, t') => (g, SFPy.abs t')) (SFSrc.m_grad P F G S peqb gmul uf ug stencil fdest fdmode x t)
+      = SF.sf_grad P F G S peqb gmul uf ug stencil fdest fdmode x (SFPy.abs t) /\
+    mapr (fun '(v, g, t') => (v, g, SFPy.abs t')) (SFSrc.m_fun_and_grad P F G S peqb fmul gmul uf ug stencil fdest fdmode x t)
+      = SF.sf_fun_and_grad P F G S peqb fmul gmul uf ug stencil fdest fdmode x (SFPy.abs t).
+  Proof.
+    intros x t I. split; [exact (proj1 (SFRefine.fun_refines P F G S peqb fmul uf x t I))|].
+    split; [exact (proj1 (SFRefine.grad_refines P F G S peqb gmul uf ug stencil fdest fdmode x t I))|].
+    exact (proj1 (SFRefine.fun_and_grad_refines P F G S peqb fmul gmul uf ug stencil fdest fdmode x t I)).
+  Qed.
+
+  Theorem C15_source_refines_model : forall (os : list (SF.op P S)) (x0 : P) (s0 : S),
+    mapr (fun '(l, t') => (l, SFPy.abs t')) (SFRefine.py_run P F G S peqb fmul gmul uf ug stencil fdest fdmode os (SFSrc.init P F G S x0 s0))
+    = SF.run P F G S peqb fmul gmul uf ug stencil fdest fdmode os (SF.init P F G S x0 s0).
+  Proof.
+    intros os x0 s0. destruct (SFRefine.init_refines P F G S x0 s0) as [I E]. rewrite <- E.
+    exact (SFRefine.run_refines P F G S peqb fmul gmul uf ug stencil fdest fdmode os _ I).
+  Qed.
+
+  Hypothesis user_respects_array_equal :
+    forall p q, peqb p q = true -> uf p = uf q /\ ug p = ug q /\ stencil p = stencil q /\ fdest p = fdest q.
+
+  (* C15_wrapper, of the translated class: the counters are the attributes nfev / ngev of the object *)
+  Theorem C15_wrapper_of_source : forall os x0 s0 l t1 tr,
+    SFRefine.py_run P F G S peqb fmul gmul uf ug stencil fdest fdmode os (SFSrc.init P F G S x0 s0) = (Ok (l, t1), tr) ->
+    answers_ok P F G S fmul gmul uf ug stencil fdest fdmode os s0 l /\
+    SFPy.pnfev t1 = count_f P F G tr /\
+    (fdmode = false -> SFPy.pngev t1 = count_g P F G tr).
+  Proof.
+    intros os x0 s0 l t1 tr H. pose proof (C15_source_refines_model os x0 s0) as R. rewrite H in R. unfold SFRefine.mapr in R. cbn in R.
+    exact (C15_wrapper P F G S peqb fmul gmul uf ug stencil fdest fdmode user_respects_array_equal os x0 s0 l (SFPy.abs t1) tr (eq_sym R)).
+  Qed.
+End C15_source.
+
+Print Assumptions C15_source_refines_model.
+Print Assumptions C15_wrapper_of_source.
 Print Assumptions C15_wrapper.
 Print Assumptions C15_no_reevaluation.
 
@@ -97,3 +148,11 @@ Proof. vm_compute. reflexivity. Qed.
 Example C15_single_cell : snd (run_i false (map decode [0; 4; 0]) (SF.init Z Z Z Z 2 1)) =
   [EvF _ _ _ 2 (Ok 35); EvG _ _ _ 5 (Ok 73); EvF _ _ _ 2 (Ok 35)].
 Proof. vm_compute. reflexivity. Qed.
+
+(* the translated class on the executable instance: same answers, same calls, and the object's own counters *)
+Example C15_source_example :
+  let r := SFRefine.py_run Z Z Z Z Z.eqb Z.mul Z.mul uf_i ug_i stencil_i fdest_i false (map decode [0; 4; 8; 10; 2; 2]) (SFSrc.init Z Z Z Z 2 1) in
+  (match fst r with Ok (l, t) => Some (l, SFPy.abs t, SFPy.f_updated t, SFPy.g_updated t) | _ => None end)
+  = Some ([AFun _ _ 35; AGrad _ _ 73; ABoth _ _ 595 129; ANone _ _; AFun _ _ 1785; AFun _ _ 1785], SF.mk Z Z Z Z 9 (Some 595) (Some 129) 2 2 3, true, true)
+  /\ snd r = snd (run_i false (map decode [0; 4; 8; 10; 2; 2]) (SF.init Z Z Z Z 2 1)).
+Proof. vm_compute. split; reflexivity. Qed.
